@@ -351,6 +351,8 @@ class Interp:
             self._snapshot(name, idx, st)
             if catch and d[0] in ('prog', 'conc') and not isinstance(e, tuple(PRIV_CLASSES.values())):
                 return
+            if st.get('catch_priv') and d[0] == 'prog' and isinstance(e, tuple(PRIV_CLASSES.values())):
+                return
             raise
         else:
             self.ev(name, idx, 'leave', None)
